@@ -4,7 +4,7 @@ import sympy as sp
 import z3
 from vlib import core, rvc, ccv, native
 from vlib.core import Ob
-from vlib.rvc import D, Mx, Exec, Ret, Thrown
+from vlib.rvc import D, Mx, Exec, Ret, Thrown, SInt
 
 CDIR = os.path.join(core.VERIF, 'contracts', 'C12')
 ENUM = {'splineNormal': 0, 'splinePeriodic': 1, 'splineDerivativeZero': 2}
@@ -185,6 +185,151 @@ def job_cubic_interpolate(seed, N, bc):
     for o in obs:
         o['functions'] = mf
     replay_periodic(obs)
+    return obs
+
+
+class FunVec:
+    """Eigen vector of symbolic length N: element k is the symbol <name>[k], written <name>_i+1, <name>_N-1, <name>_c0 ... (index relative to the loop index i, to N, or constant)"""
+    def __init__(s, name, isym, nsym, store=None):
+        s.name, s.i, s.n, s.store = name, isym, nsym, store if store is not None else {}
+    def key(s, idx):
+        e = sp.expand(SInt.ex(idx) if isinstance(idx, (int, SInt)) else D.lift(idx).v)
+        for base, tag in ((s.i, 'i'), (s.n, 'N')):
+            k = sp.expand(e - base)
+            if k.is_Integer:
+                return '%s%+d' % (tag, int(k)) if int(k) else tag
+        if e.is_Integer:
+            return 'c%d' % int(e)
+        raise rvc.Unsupported('vector index %s is neither i+k, N+k nor a constant' % e)
+    def get(s, idx):
+        k = s.key(idx)
+        return s.store[k] if k in s.store else D(sp.Symbol('%s[%s]' % (s.name, k), real=True))
+    def index_ref(s, idx):
+        return rvc.Ref(lambda: s.get(idx[0]), lambda v: s.store.__setitem__(s.key(idx[0]), D.lift(v)))
+    def call(s, name, args):
+        if name in ('size', 'rows'): return SInt(s.n)
+        raise rvc.Unsupported('vector::' + name)
+
+
+class SparseM:
+    """zero-initialised matrix with symbolic indices: written entries are kept by (row key, column key)"""
+    def __init__(s, fv): s.fv, s.e = fv, {}
+    def index_ref(s, idx):
+        k = (s.fv.key(idx[0]), s.fv.key(idx[1]) if len(idx) > 1 else 'c0')
+        return rvc.Ref(lambda: s.e.get(k, D(0)), lambda v: s.e.__setitem__(k, D.lift(v)))
+    def row(s, r):
+        return {c: v for (rr, c), v in s.e.items() if rr == r}
+
+
+def job_cubic_interpolate_allN(seed, bc):
+    """CubicSpline::Interpolate for EVERY number of knots N >= 3: the loop over the interior knots is closed by a per-iteration contract (body executed once for a
+    symbolic index i on vectors of symbolic length), the boundary rows are executed with symbolic N.  Row i+1 of the assembled system is the jump of S' at knot i+1."""
+    rvc.reset()
+    rel = 'tools/src/libtools/cubicspline.cc'
+    fns = rvc.functions(rvc.ast(rel, 'CubicSpline'))
+    fn = fns['Interpolate'][0]
+    F = 'CubicSpline::Interpolate'
+    stmts = rvc.body_of(fn)['inner']
+    loops = [k for k, st in enumerate(stmts) if st['kind'] == 'ForStmt']
+    if len(loops) != 1:
+        raise core.Undecided('CubicSpline::Interpolate: one loop over the interior knots expected, found %d' % len(loops))
+    isym, nsym = sp.Symbol('i', integer=True, nonnegative=True), sp.Symbol('N', integer=True, positive=True)
+    x, y = FunVec('x', isym, nsym), FunVec('y', isym, nsym)
+    rvec, fvec, f2 = FunVec('r', isym, nsym), FunVec('f', isym, nsym), FunVec('u', isym, nsym)
+    import z3
+    P = rvc.Paths(); P.start()
+    rvc.CTX.base = [z3.Int('N') >= 3, z3.Int('i') >= 0, z3.Int('i') <= z3.Int('N') - 3]
+    this = {'r_': rvec, 'f_': fvec, 'f2_': f2, 'boundaries_': bc}
+    rec = {}
+    A, temp = SparseM(rvec), SparseM(rvec)
+    def decl(ex_, vd, ty, inner):
+        if 'HouseholderQR' in ty:
+            rec['qr'] = ctor_value(ex_, inner)
+            return {'__class__': 'QR'}
+        if vd['name'] == 'A' or (re.search(r'MatrixXd', ty) and 'Zero' in str(inner)[:3000]):
+            return A
+        if vd['name'] == 'temp' or (re.search(r'VectorXd', ty) and 'Zero' in str(inner)[:3000]):
+            return temp
+        return NotImplemented
+    def ctor_value(ex_, inner):
+        n = inner[0]
+        while n.get('kind') != 'CXXConstructExpr':
+            n = n['inner'][0]
+        return rvc.rval(ex_.expr(n['inner'][0]))
+    def store_vec(dst_name):
+        def f(v): pass
+        return f
+    cb = {'enum': lambda nm: ENUM[nm], 'decl': decl, 'decide': P.decide, 'solve': lambda qr, b: (rec.__setitem__('rhs', b), f2)[1]}
+    ex = Exec({'x': x, 'y': y}, cb, fns, this)
+    # vectors are copied by assignment (r_ = x; f_ = y): symbolic vectors alias their source under the new name
+    for st in stmts[:loops[0]]:
+        ex.stmt(st)
+    obs = []
+    bcn = {0: 'natural', 1: 'periodic'}[bc]
+    mf = fn_meta(fns, 'CubicSpline', ['Interpolate'], rel)
+    def ob(oid, clause, ok, detail=''):
+        o = Ob(oid, F, clause, 'RVC', 'symbolic execution (loop closed by a per-iteration contract, vectors of symbolic length)', core.PROVED if ok else core.REFUTED, 0, detail, witness=None if ok else {'detail': detail[:400]})
+        o['functions'] = mf; obs.append(o)
+    rr, ff = this['r_'], this['f_']
+    ok = isinstance(rr, FunVec) and isinstance(ff, FunVec) and rr.name == 'x' and ff.name == 'y'
+    ob('C12.cubic.interp.%s.allN/copy' % bcn, 'r_ and f_ hold the abscissae and ordinates handed in', ok, '%s %s' % (getattr(rr, 'name', rr), getattr(ff, 'name', ff)))
+    if not ok:
+        return obs
+    loop = stmts[loops[0]]
+    ex.env[loop['inner'][0]['inner'][0]['name']] = SInt(isym)
+    ex.stmt(loop['inner'][4])
+    # the row written by iteration i
+    rows = set(k[0] for k in A.e) | set(k[0] for k in temp.e)
+    ok = rows == {'i+1'}
+    ob('C12.cubic.interp.%s.allN/row-index' % bcn, 'iteration i (0 <= i <= N-3) writes row i+1 of the matrix and of the right-hand side, and nothing else', ok, str(sorted(rows)))
+    if ok:
+        r = sp.Symbol('r', real=True)
+        usym = lambda k: f2.get(SInt(isym + k)).v
+        row = A.row('i+1')
+        lhs = sum((v.v * f2.get(SInt({'i': isym, 'i+1': isym + 1, 'i+2': isym + 2}[c])).v for c, v in row.items() if c in ('i', 'i+1', 'i+2')), sp.Integer(0)) - temp.e.get(('i+1', 'c0'), D(0)).v
+        okc = set(row) <= {'i', 'i+1', 'i+2'}
+        # S' on interval i at its right end, and on interval i+1 at its left end, from the real CalculateDerivative
+        def slope_at(interval, knot):
+            exs = Exec({}, {'enum': lambda nm: ENUM[nm], 'getInterval': lambda o, rv: SInt(interval)}, fns, this)
+            m = exs.pick_method('CalculateDerivative', 1)
+            d = exs.call_fn(m, [D(r)], this)
+            return sp.sympify(D.lift(d).v).subs(r, rr.get(SInt(knot)).v)
+        defect = slope_at(isym, isym + 1) - slope_at(isym + 1, isym + 1)
+        o = rvc.identity('C12.cubic.interp.%s.allN/C1' % bcn, F, "row i+1 of the system (in the unknown curvatures) == jump of S' at the interior knot i+1, for every interior knot of every grid", lhs, defect, seed)
+        o['functions'] = mf; obs.append(o)
+        ob('C12.cubic.interp.%s.allN/band' % bcn, 'row i+1 only has entries in columns i, i+1, i+2', okc, str(sorted(row)))
+    # boundary rows with symbolic N
+    A.e = {k: v for k, v in A.e.items() if k[0] != 'i+1'}; temp.e = {k: v for k, v in temp.e.items() if k[0] != 'i+1'}
+    try:
+        for st in stmts[loops[0] + 1:]:
+            ex.stmt(st)
+    except Ret:
+        pass
+    rows = sorted(set(k[0] for k in A.e))
+    ok = rows == ['N-1', 'c0']
+    ob('C12.cubic.interp.%s.allN/boundary-rows' % bcn, 'the boundary conditions fill exactly rows 0 and N-1 (the rows the interior loop leaves free)', ok and rec.get('qr') is A and rec.get('rhs') is temp, '%s qr=%s' % (rows, rec.get('qr') is A))
+    if ok:
+        def rowsum(rk):
+            tot = sp.Integer(0)
+            for c, v in A.row(rk).items():
+                idx = {'c0': 0, 'c1': 1, 'N-1': nsym - 1, 'N-2': nsym - 2}.get(c)
+                if idx is None:
+                    raise rvc.Unsupported('boundary row touches column %s' % c)
+                tot += v.v * f2.get(SInt(idx) if not isinstance(idx, int) else idx).v
+            return tot - temp.e.get((rk, 'c0'), D(0)).v
+        if bc == 0:
+            o = rvc.identity('C12.cubic.interp.natural.allN/end0', F, 'row 0 == curvature at the first knot (natural: zero)', rowsum('c0'), f2.get(0).v, seed); o['functions'] = mf; obs.append(o)
+            o = rvc.identity('C12.cubic.interp.natural.allN/endN', F, 'row N-1 == curvature at the last knot', rowsum('N-1'), f2.get(SInt(nsym - 1)).v, seed); o['functions'] = mf; obs.append(o)
+        else:
+            r = sp.Symbol('r', real=True)
+            def slope_at(interval, knot):
+                exs = Exec({}, {'enum': lambda nm: ENUM[nm], 'getInterval': lambda o_, rv: interval}, fns, this)
+                m = exs.pick_method('CalculateDerivative', 1)
+                d = exs.call_fn(m, [D(r)], this)
+                return sp.sympify(D.lift(d).v).subs(r, rr.get(knot).v)
+            o = rvc.identity('C12.cubic.interp.periodic.allN/curv', F, 'row 0 == curvature(first knot) - curvature(last knot)', rowsum('c0'), f2.get(0).v - f2.get(SInt(nsym - 1)).v, seed); o['functions'] = mf; obs.append(o)
+            jump = slope_at(0, 0) - slope_at(SInt(nsym - 2), SInt(nsym - 1))
+            o = rvc.identity('C12.cubic.interp.periodic.allN/slope', F, "row N-1 == S'(first knot) - S'(last knot) up to sign (equal end slopes)", rowsum('N-1') ** 2, jump ** 2, seed); o['functions'] = mf; obs.append(o)
     return obs
 
 
@@ -652,7 +797,7 @@ def jobs_rvc(tier, seed):
 
 
 def run(tier, seed, only=None):
-    jobs = jobs_rvc(tier, seed) + [(job_getinterval, ('unbounded',)), (job_getinterval, ('twin',))] + [(job_getinterval_real, (k, seed)) for k in ((3, 4) if tier == 'quick' else (3, 4, 5, 6))] + [(job_grid, ('spline', seed)), (job_grid, ('table', seed))]
+    jobs = jobs_rvc(tier, seed) + [(job_cubic_interpolate_allN, (seed, 0)), (job_cubic_interpolate_allN, (seed, 1))] + [(job_getinterval, ('unbounded',)), (job_getinterval, ('twin',))] + [(job_getinterval_real, (k, seed)) for k in ((3, 4) if tier == 'quick' else (3, 4, 5, 6))] + [(job_grid, ('spline', seed)), (job_grid, ('table', seed))]
     if only:
         jobs = [j for j in jobs if re.search(only, j[0].__name__ + str(j[1]))]
     obs = core.pmap(jobs)
